@@ -241,3 +241,807 @@ def spec_distributions():
 
 
 SPECS = [spec_unrooted, spec_timetree, spec_skyline, spec_birthdeath, spec_codon, spec_general, spec_distributions]
+
+
+# =============================================================================================
+# 2. Building instances, freshly built copies
+# =============================================================================================
+
+def strip(o):
+    if isinstance(o, dict):
+        return {k: strip(v) for k, v in o.items() if not k.startswith("_")}
+    if isinstance(o, list):
+        return [strip(x) for x in o]
+    return o
+
+
+def leaf_domains(objs, out=None):
+    out = {} if out is None else out
+    if isinstance(objs, dict):
+        if objs.get("type") == "Parameter" and "_dom" in objs:
+            out[objs["id"]] = objs["_dom"]
+        for v in objs.values():
+            leaf_domains(v, out)
+    elif isinstance(objs, list):
+        for v in objs:
+            leaf_domains(v, out)
+    return out
+
+
+def build(spec, values=None):
+    """Build the specification through the public JSON interface; with `values` (leaf id -> nested
+    list) the leaves hold these values from construction on (a freshly built copy)."""
+    torch = impl.load()
+    from torchtree.core.utils import process_object, update_parameters
+    js = strip(copy.deepcopy(spec["objects"]))
+    if values is not None:
+        update_parameters(js, {k: {"tensor": v} for k, v in values.items()})
+    dic = {}
+    for o in js:
+        process_object(o, dic)
+    return dic
+
+
+def leaf_values(dic, leaves):
+    return {k: dic[k].tensor.detach().tolist() for k in leaves}
+
+
+# =============================================================================================
+# 3. Wiring extraction from the real objects
+# =============================================================================================
+
+class ExtractError(Exception):
+    pass
+
+
+def qn(obj):
+    c = type(obj)
+    return f"{c.__module__}:{c.__name__}"
+
+
+def listeners_of(obj, table):
+    ent = table[qn(obj)]
+    a = ent["listeners_attr"]
+    return list(getattr(obj, a)) if a else []
+
+
+def targets_of(obj):
+    from torchtree.core.parameter import CatParameter, TransformedParameter, ViewParameter
+    if isinstance(obj, ViewParameter):
+        return [obj.parameter]
+    if isinstance(obj, CatParameter):
+        return list(obj._parameter_container.params())
+    if isinstance(obj, TransformedParameter):
+        return [obj.x]
+    return []
+
+
+def kind_of(obj):
+    from torchtree.core.parameter import CatParameter, Parameter, TransformedParameter, ViewParameter
+    if type(obj) is Parameter:
+        return "KLeaf"
+    if isinstance(obj, ViewParameter):
+        return "KView"
+    if isinstance(obj, CatParameter):
+        return "KCat"
+    if isinstance(obj, TransformedParameter):
+        return "KTrans"
+    return "KOther"
+
+
+def collect_objects(dic, table):
+    """All protocol objects reachable from the registry (sub-objects, listeners, setter targets)."""
+    from torchtree.core.abstractparameter import AbstractParameter
+    from torchtree.core.model import Model
+    from torchtree.core.parametric import Parametric
+    seen, order = {}, []
+
+    def visit(o):
+        if not isinstance(o, (AbstractParameter, Model, Parametric)) or id(o) in seen:
+            return
+        if qn(o) not in table:
+            raise ExtractError(f"object of class {qn(o)} is not in the translated class table")
+        seen[id(o)] = o
+        order.append(o)
+        for t in targets_of(o):
+            visit(t)
+        for name in ("_parameters", "_models"):
+            for v in getattr(o, name, {}).values() if isinstance(getattr(o, name, None), dict) else []:
+                visit(v)
+        if hasattr(o, "_parameter_container"):
+            visit(o._parameter_container)
+        for l in listeners_of(o, table):
+            if not isinstance(l, (AbstractParameter, Model, Parametric)):
+                raise ExtractError(f"listener {type(l).__name__} of {type(o).__name__} is not a protocol object")
+            visit(l)
+
+    for v in dic.values():
+        visit(v)
+    return order
+
+
+def obj_name(o, names):
+    return names.get(id(o)) or f"<{type(o).__name__}@{id(o) & 0xffff:x}>"
+
+
+class Tracer:
+    """Read-tracing with sys.setprofile: which slot reads which slot.
+
+    A slot is (object, 'leaf') | (object, 'f:<flag>') cached | (object, 'm:<method>') uncached.
+    Frames whose `self` is a protocol object are attributed to a slot: a method containing the
+    `if self.F: ...; self.F = False` pattern belongs to slot f:F; any other method entered from the same
+    object inherits the current slot; entered from another object it opens the uncached slot m:<method>."""
+
+    def __init__(self, objs, table):
+        self.ids = {id(o): o for o in objs}
+        self.table = table
+        self.stack = []          # (frame id, (objid, slotname))
+        self.edges = []          # (read slot, reader slot) in order of first occurrence
+        self.seen = set()
+        self.top_reads = []
+        self.acc = {}            # class -> {method: flag}
+        self.single = {}
+
+    def _accessors(self, o):
+        q = qn(o)
+        if q not in self.acc:
+            fl = self.table[q]["flags"]
+            self.acc[q] = {m: f for f, ms in fl.items() for m in ms}
+            self.single[q] = (next(iter(fl)) if len(fl) == 1 and self.table[q]["is_param"] else None)
+        return self.acc[q], self.single[q]
+
+    def slot_for(self, o, fn):
+        acc, single = self._accessors(o)
+        top = self.stack[-1][1] if self.stack else None
+        if fn in acc:
+            return (id(o), "f:" + acc[fn])
+        if top is not None and top[0] == id(o):
+            return top
+        if kind_of(o) == "KLeaf":
+            return (id(o), "leaf")
+        if single is not None:
+            return (id(o), "f:" + single)
+        return (id(o), "m:" + fn)
+
+    def __call__(self, frame, event, arg):
+        if event == "call":
+            code = frame.f_code
+            if code.co_argcount >= 1 and code.co_varnames[0] == "self":
+                o = frame.f_locals.get("self")
+                if id(o) in self.ids and self.ids[id(o)] is o:
+                    fn = code.co_name
+                    if fn in ("__init__", "__getattr__", "__setattr__", "__torch_function__") or \
+                            fn.startswith("handle_") or fn.startswith("fire_") or fn.startswith("add_"):
+                        return
+                    s = self.slot_for(o, fn)
+                    top = self.stack[-1][1] if self.stack else None
+                    if top is None:
+                        self.top_reads.append(s)
+                    elif top != s and (s, top) not in self.seen:
+                        self.seen.add((s, top))
+                        self.edges.append((s, top))
+                    self.stack.append((id(frame), s))
+        elif event == "return":
+            if self.stack and self.stack[-1][0] == id(frame):
+                self.stack.pop()
+
+    def run(self, thunk):
+        self.stack = []
+        sys.setprofile(self)
+        try:
+            return thunk()
+        finally:
+            sys.setprofile(None)
+            self.stack = []
+
+
+def observations(o, table):
+    """(slot name, thunk) pairs through which the harness reads object o (public accessors only)."""
+    from torchtree.core.abstractparameter import AbstractParameter
+    from torchtree.core.model import CallableModel
+    from torchtree.evolution.branch_model import BranchModel
+    from torchtree.evolution.site_model import SiteModel
+    from torchtree.evolution.substitution_model.abstract import SubstitutionModel
+    from torchtree.evolution.tree_model import TreeModel
+    ent = table[qn(o)]
+    flags = ent["flags"]
+    out = []
+    k = kind_of(o)
+    if k == "KLeaf":
+        return [("leaf", lambda: o.tensor)]
+    if isinstance(o, AbstractParameter):
+        if len(flags) == 1:
+            out.append(("f:" + next(iter(flags)), lambda: o.tensor))
+        elif not flags:
+            out.append(("m:tensor", lambda: o.tensor))
+        else:
+            for f in flags:
+                if f == "lp_needs_update":
+                    out.append(("f:" + f, lambda: o()))
+                elif f == "need_update":
+                    out.append(("f:" + f, lambda: o.tensor))
+                else:
+                    raise ExtractError(f"{qn(o)}: no observation known for flag {f}")
+        return out
+    for f in flags:
+        if f == "lp_needs_update" and isinstance(o, CallableModel):
+            out.append(("f:" + f, lambda: o()))
+        elif f == "heights_need_update":
+            out.append(("f:" + f, lambda: o.node_heights))
+        elif f == "branch_lengths_need_update":
+            out.append(("f:" + f, lambda: o.branch_lengths()))
+        elif f == "needs_update" and isinstance(o, SiteModel):
+            out.append(("f:" + f, lambda: (o.rates(), o.probabilities())))
+        else:
+            raise ExtractError(f"{qn(o)}: no observation known for flag {f}")
+    if isinstance(o, SiteModel) and not flags:
+        out += [("m:rates", lambda: o.rates()), ("m:probabilities", lambda: o.probabilities())]
+    if isinstance(o, TreeModel) and "branch_lengths_need_update" not in flags:
+        out.append(("m:branch_lengths", lambda: o.branch_lengths()))
+    if isinstance(o, SubstitutionModel):
+        out += [("m:q", lambda: o.q()), ("m:frequencies", lambda: o.frequencies)]
+    if isinstance(o, BranchModel):
+        out.append(("m:rates", lambda: o.rates))
+    return out
+
+
+class Wiring:
+    """The model graph of one instance + the maps back to the real objects."""
+    pass
+
+
+def extract(spec, table, cls_names, flag_names):
+    torch = impl.load()
+    dic = build(spec)
+    objs = collect_objects(dic, table)
+    names = {id(v): k for k, v in dic.items()}
+    # -- read tracing on this scratch copy, every cache forced dirty so that everything is re-read
+    tr = Tracer(objs, table)
+    obs = {}
+    dropped = []
+
+    def force_dirty():
+        for o in objs:
+            for f in table[qn(o)]["flags"]:
+                if hasattr(o, f):
+                    setattr(o, f, True)
+
+    for o in objs:
+        for sname, th in observations(o, table):
+            force_dirty()
+            try:
+                with torch.no_grad():
+                    tr.run(th)
+                obs[(id(o), sname)] = th
+            except Exception as e:                      # not evaluable on this tree (e.g. C09 defect)
+                dropped.append((obj_name(o, names), sname, f"{type(e).__name__}: {e}"[:160]))
+                obs[(id(o), sname)] = th
+    # -- slots
+    slots = []
+    sidx = {}
+
+    def add_slot(s):
+        if s not in sidx:
+            sidx[s] = len(slots)
+            slots.append(s)
+
+    for o in objs:
+        if kind_of(o) == "KLeaf":
+            add_slot((id(o), "leaf"))
+        for f in table[qn(o)]["flags"]:
+            add_slot((id(o), "f:" + f))
+    for s in obs:
+        add_slot(s)
+    for a, b in tr.edges:
+        add_slot(a)
+        add_slot(b)
+    deps = {s: [] for s in slots}
+    for a, b in tr.edges:
+        if a not in deps[b]:
+            deps[b].append(a)
+    # -- topological numbering of slots (reads first) and objects (targets / notifiers first)
+    def toposort(nodes, preds, what):
+        order, state = [], {}
+
+        def visit(n, path):
+            st = state.get(n)
+            if st == 2:
+                return
+            if st == 1:
+                raise ExtractError(f"cycle in {what}: {path + [n]}")
+            state[n] = 1
+            for p in preds(n):
+                visit(p, path + [n])
+            state[n] = 2
+            order.append(n)
+        for n in nodes:
+            visit(n, [])
+        return order
+
+    slot_order = toposort(slots, lambda s: deps[s], "read dependencies")
+    lst = {id(o): [id(l) for l in listeners_of(o, table)] for o in objs}
+    tg = {id(o): [id(t) for t in targets_of(o)] for o in objs}
+    notifiers = {id(o): [] for o in objs}
+    for o in objs:
+        for l in lst[id(o)]:
+            if id(o) not in notifiers[l]:
+                notifiers[l].append(id(o))
+    obj_order = toposort([id(o) for o in objs], lambda i: tg[i] + notifiers[i], "listener registrations")
+    byid = {id(o): o for o in objs}
+    W = Wiring()
+    W.spec, W.table, W.flag_names, W.cls_names = spec, table, flag_names, cls_names
+    W.obj_ids = obj_order
+    W.oindex = {i: k for k, i in enumerate(obj_order)}
+    W.obj_names = [obj_name(byid[i], names) for i in obj_order]
+    W.obj_class = [qn(byid[i]) for i in obj_order]
+    W.obj_kind = [kind_of(byid[i]) for i in obj_order]
+    W.listeners = [[W.oindex[l] for l in lst[i]] for i in obj_order]
+    W.targets = [[W.oindex[t] for t in tg[i]] for i in obj_order]
+    W.slots = slot_order
+    W.sindex = {s: k for k, s in enumerate(slot_order)}
+    W.slot_owner = [W.oindex[s[0]] for s in slot_order]
+    W.slot_name = [s[1] for s in slot_order]
+    W.slot_deps = [[W.sindex[d] for d in deps[s]] for s in slot_order]
+    W.slot_flag = [(flag_names.index(s[1][2:]) if s[1].startswith("f:") else None) for s in slot_order]
+    W.observable = [s in obs for s in slot_order]
+    W.dropped = dropped
+    W.leaf_ids = sorted(k for k, v in dic.items() if kind_of(v) == "KLeaf")
+    W.domains = leaf_domains(spec["objects"])
+    # paths from the registry to every object / observation, usable on any other copy of the instance
+    W.locators = [locate(byid[i], dic, names) for i in obj_order]
+    return W, dic
+
+
+def locate(o, dic, names):
+    """A path (registry id, then attribute steps) reaching object o from the registry."""
+    if id(o) in names:
+        return [names[id(o)]]
+    # breadth-first search through the protocol attributes
+    from collections import deque
+    q = deque((v, [k]) for k, v in dic.items())
+    seen = set()
+    while q:
+        cur, path = q.popleft()
+        if id(cur) in seen:
+            continue
+        seen.add(id(cur))
+        if cur is o:
+            return path
+        for attr in ("_parameters", "_models"):
+            d = getattr(cur, attr, None)
+            if isinstance(d, dict):
+                for k, v in d.items():
+                    q.append((v, path + [(attr, k)]))
+        if hasattr(cur, "_parameter_container"):
+            q.append((cur._parameter_container, path + [("attr", "_parameter_container")]))
+        for j, t in enumerate(targets_of(cur)):
+            q.append((t, path + [("target", j)]))
+    raise ExtractError(f"cannot locate {type(o).__name__} from the registry")
+
+
+def resolve(path, dic):
+    cur = dic[path[0]]
+    for kind, k in path[1:]:
+        if kind in ("_parameters", "_models"):
+            cur = getattr(cur, kind)[k]
+        elif kind == "attr":
+            cur = getattr(cur, k)
+        else:
+            cur = targets_of(cur)[k]
+    return cur
+
+
+def coq_graph(W):
+    cidx = {n: i for i, n in enumerate(W.cls_names)}
+    objs = "; ".join(f"mkObj {cidx[W.obj_class[i]]} {W.obj_kind[i]} {C.coq_list(W.listeners[i], C.natlit)} "
+                     f"{C.coq_list(W.targets[i], C.natlit)}" for i in range(len(W.obj_ids)))
+    slots = "; ".join(
+        f"mkSlot {W.slot_owner[k]} {('(Some ' + str(W.slot_flag[k]) + '%nat)') if W.slot_flag[k] is not None else 'None'} "
+        f"{'true' if W.slot_name[k] == 'leaf' else 'false'} {C.coq_list(W.slot_deps[k], C.natlit)}"
+        for k in range(len(W.slots)))
+    return f"(mkGraph cls_table [{objs}]%nat [{slots}]%nat)"
+
+
+def conservative_deps(W, dic_objs, table):
+    """For a cached slot whose recomputation could not be traced (it raises on this tree) assume it reads
+    everything its object registered: every parameter's tensor slot and every cached / observed slot of
+    every registered sub-model.  Returns the list of (slot index, added deps)."""
+    added = []
+    traced_fail = {(n, s) for n, s, _ in W.dropped}
+    for k, (oid, sname) in enumerate(W.slots):
+        o = dic_objs[oid]
+        if (W.obj_names[W.oindex[oid]], sname) not in traced_fail or W.slot_deps[k]:
+            continue
+        extra = []
+        for d in (getattr(o, "_parameters", {}), getattr(o, "_models", {})):
+            for sub in d.values():
+                j = W.oindex.get(id(sub))
+                if j is None:
+                    continue
+                for k2 in range(len(W.slots)):
+                    if W.slot_owner[k2] == j and k2 < k and (W.slot_name[k2] == "leaf" or W.slot_flag[k2] is not None
+                                                             or W.slot_name[k2] == "m:tensor"):
+                        if k2 not in extra:
+                            extra.append(k2)
+        if extra:
+            W.slot_deps[k] = extra
+            added.append((k, extra))
+    return added
+
+
+# =============================================================================================
+# 4. Python mirror of the cascade (only to NAME the offending handler; verdicts come from Coq)
+# =============================================================================================
+
+def cascade(W, o, ev="EvP"):
+    """-> (marked {(obj, flagname)}, received {obj: set(events)}, raised_at obj|None)"""
+    marked, received = set(), {}
+
+    class Raise(Exception):
+        pass
+
+    def fire(src, e, depth=0):
+        if depth > len(W.obj_ids) + 2:
+            raise ExtractError("cascade does not terminate")
+        for l in W.listeners[src]:
+            received.setdefault(l, set()).add(e)
+            ent = W.table[W.obj_class[l]]
+            for st in ent["hp" if e == "EvP" else "hm"]:
+                if st[0] == "HSet":
+                    marked.add((l, st[1]))
+                elif st[0] == "HFire":
+                    fire(l, st[1], depth + 1)
+                elif st[0] == "HRaise":
+                    raise Raise(l)
+    try:
+        fire(o, ev)
+    except Raise as r:
+        return marked, received, r.args[0]
+    return marked, received, None
+
+
+def reads_set(W, n):
+    out, stack = set(), [n]
+    while stack:
+        k = stack.pop()
+        if k in out:
+            continue
+        out.add(k)
+        stack.extend(W.slot_deps[k])
+    return out
+
+
+def short(q):
+    return q.split(":")[1]
+
+
+def hname(e):
+    return "handle_parameter_changed" if e == "EvP" else "handle_model_changed"
+
+
+def root_cause(W, p, n):
+    """Name the handler responsible for cached slot n not being marked when leaf object p changes."""
+    marked, received, _ = cascade(W, p)
+    pslot = next(k for k in range(len(W.slots)) if W.slot_owner[k] == p and W.slot_name[k] == "leaf")
+    # a dependency path pslot -> ... -> n
+    prev = {pslot: None}
+    order = [pslot]
+    readers = {k: [m for m in range(len(W.slots)) if k in W.slot_deps[m]] for k in range(len(W.slots))}
+    for k in order:
+        for m in readers[k]:
+            if m not in prev:
+                prev[m] = k
+                order.append(m)
+    path = []
+    k = n
+    while k is not None:
+        path.append(k)
+        k = prev.get(k)
+    path.reverse()
+    for i, m in enumerate(path[1:], 1):
+        fl = W.slot_flag[m]
+        if fl is None:
+            continue
+        y = W.slot_owner[m]
+        if (y, W.flag_names[fl]) in marked:
+            continue
+        cy = short(W.obj_class[y])
+        if y in received:
+            for e in sorted(received[y]):
+                h = W.table[W.obj_class[y]]["hp" if e == "EvP" else "hm"]
+                if ("HSet", W.flag_names[fl]) not in h:
+                    return f"{cy}.{hname(e)}:ignores", m, path[i - 1]
+            return f"{cy}:flag-{W.flag_names[fl]}-not-set", m, path[i - 1]
+        # y never notified: who on the path before it was notified last?
+        z = W.slot_owner[path[i - 1]]
+        cz = short(W.obj_class[z])
+        if z in received or z == p:
+            if y in W.listeners[z]:
+                for e in sorted(received.get(z, {"EvP"})):
+                    h = W.table[W.obj_class[z]]["hp" if e == "EvP" else "hm"]
+                    if not any(s[0] == "HFire" for s in h):
+                        return f"{cz}.{hname(e)}:does-not-propagate", m, path[i - 1]
+            return f"{cy}:not-listening-to:{cz}", m, path[i - 1]
+        return f"{cz}:not-notified", m, path[i - 1]
+    return f"{short(W.obj_class[W.slot_owner[n]])}:unexplained", n, pslot
+
+
+# =============================================================================================
+# 5. Running histories on the implementation
+# =============================================================================================
+
+class Real:
+    """One live copy of an instance, addressed through the wiring W."""
+
+    def __init__(self, W, values=None):
+        self.W = W
+        self.torch = impl.load()
+        self.dic = build(W.spec, values)
+        self.objs = [resolve(p, self.dic) for p in W.locators]
+        self.obs = {}
+        for i, o in enumerate(self.objs):
+            if qn(o) != W.obj_class[i]:
+                raise ExtractError(f"copy differs from the extracted wiring at {W.obj_names[i]}")
+            for sname, th in observations(o, W.table):
+                self.obs[(i, sname)] = th
+        self.calls = []
+        from torchtree.core.model import CallableModel
+        for i, o in enumerate(self.objs):
+            if isinstance(o, CallableModel):
+                self._wrap(i, o)
+        self.saved = {}
+
+    def _wrap(self, i, o):
+        orig = o._call
+        calls = self.calls
+
+        def wrapped(*a, **k):
+            calls.append(i)
+            return orig(*a, **k)
+        object.__setattr__(o, "_call", wrapped)
+
+    def flags(self):
+        W = self.W
+        return [int(bool(getattr(self.objs[W.slot_owner[k]], W.flag_names[W.slot_flag[k]])))
+                for k in range(len(W.slots)) if W.slot_flag[k] is not None]
+
+    def leaf_values(self):
+        return {k: self.dic[k].tensor.detach().tolist() for k in self.W.leaf_ids}
+
+    def observe(self, k):
+        """-> ('val', canonical tensors) | ('exc', type)"""
+        W = self.W
+        th = self.obs[(W.slot_owner[k], W.slot_name[k])]
+        self.calls.clear()
+        try:
+            with self.torch.no_grad():
+                v = th()
+        except Exception as e:
+            return ("exc", type(e).__name__, str(e)[:200])
+        vs = v if isinstance(v, (tuple, list)) else (v,)
+        return ("val", [x.detach().clone() if hasattr(x, "detach") else self.torch.as_tensor(x) for x in vs])
+
+    # ---- values -----------------------------------------------------------------------------
+    def gen_value(self, i, rng, base):
+        """A new admissible value for parameter object i (shape of its current tensor)."""
+        torch = self.torch
+        W = self.W
+        o = self.objs[i]
+        k = W.obj_kind[i]
+        if k == "KLeaf":
+            cur = o.tensor.detach()
+            dom = W.domains.get(W.obj_names[i], POS)
+            b = torch.tensor(base[W.obj_names[i]], dtype=cur.dtype).reshape(cur.shape) if W.obj_names[i] in base else cur
+
+            def U(lo, hi):
+                return torch.tensor([rng.uniform(lo, hi) for _ in range(max(cur.numel(), 1))],
+                                    dtype=cur.dtype)[:cur.numel()].reshape(cur.shape)
+            if dom == POS:
+                return U(0.2, 3.0)
+            if dom == BL:
+                return U(0.01, 0.5)
+            if dom == UNIT:
+                return U(0.05, 0.95)
+            if dom == REAL:
+                return U(-1.0, 1.0)
+            if dom == SIMPLEX:
+                x = U(0.5, 1.5)
+                return x / x.sum(-1, keepdim=True)
+            if dom in (HEIGHTS, GRID, "root", "origin"):
+                return b * (1.0 + rng.uniform(0.0, 1.0))
+            if dom == "spd":
+                return b + rng.uniform(0.0, 1.0) * torch.eye(b.shape[-1], dtype=cur.dtype)
+            if dom == "kf":
+                x = U(0.5, 1.5)
+                x[..., 1:] = x[..., 1:] / x[..., 1:].sum(-1, keepdim=True)
+                return x
+            raise ExtractError(f"unknown domain {dom}")
+        if k == "KView":
+            return self.gen_value(W.targets[i][0], rng, base)[..., o.indices]
+        if k == "KCat":
+            return torch.cat([self.gen_value(t, rng, base) for t in W.targets[i]], dim=o._dim)
+        if k == "KTrans":
+            return o.transform(self.gen_value(W.targets[i][0], rng, base))
+        raise ExtractError(f"cannot generate a value for {W.obj_class[i]}")
+
+    # ---- operations -------------------------------------------------------------------------
+    def apply(self, op):
+        """Execute an update through the public interface.  -> None | ('raise', type, msg)"""
+        torch = self.torch
+        kind = op["op"]
+        o = self.objs[op["obj"]]
+        try:
+            if kind in ("set", "propose"):
+                if kind == "propose":
+                    self.saved[op["obj"]] = o.tensor.detach().clone()
+                o.tensor = torch.tensor(op["value"], dtype=o.tensor.dtype)
+            elif kind == "reject":
+                o.tensor = self.saved.pop(op["obj"])
+            elif kind == "inplace":
+                with torch.no_grad():
+                    o.tensor.copy_(torch.tensor(op["value"], dtype=o.tensor.dtype))
+                o.fire_parameter_changed()
+            elif kind == "fire":
+                o.fire_parameter_changed()
+            elif kind == "sample":
+                torch.manual_seed(op["seed"])
+                o.sample()
+            else:
+                raise ExtractError(f"unknown op {kind}")
+        except ExtractError:
+            raise
+        except Exception as e:
+            return ("raise", type(e).__name__, str(e)[:200])
+        return None
+
+
+def same_value(a, b, torch):
+    """values of the same slot on the history copy and on a freshly built copy"""
+    if a[0] != b[0]:
+        return False
+    if a[0] == "exc":
+        return a[1] == b[1]
+    if len(a[1]) != len(b[1]):
+        return False
+    for x, y in zip(a[1], b[1]):
+        if x.shape != y.shape:
+            return False
+        if x.dtype.is_floating_point:
+            if not torch.allclose(x, y, rtol=1e-9, atol=1e-12, equal_nan=True):
+                return False
+        elif not torch.equal(x, y):
+            return False
+    return True
+
+
+def model_op(W, op):
+    k = op["op"]
+    if k == "eval":
+        return f"OEval {op['slot']}"
+    if k in ("set", "propose", "reject"):
+        return f"OAssign {op['obj']}"
+    if k == "sample":
+        return f"OAssign {op['x']}"
+    if k == "inplace":
+        return f"OInplaceFire {op['obj']}"
+    if k == "fire":
+        return f"OFire {op['obj']}"
+    raise ExtractError(k)
+
+
+def gen_history(W, rng, length, real):
+    """A random history (list of op dicts) over instance W.  `real` is a scratch copy used only to
+    size the values."""
+    from torchtree.distributions.distributions import DistributionModel
+    n = len(W.obj_ids)
+    params = [i for i in range(n) if W.obj_kind[i] != "KOther"]
+    leaves = [i for i in params if W.obj_kind[i] == "KLeaf"]
+    composite = [i for i in params if W.obj_kind[i] != "KLeaf"]
+    samplers = [i for i in range(n) if isinstance(real.objs[i], DistributionModel)
+                and hasattr(real.objs[i], "x") and id(real.objs[i].x) in W.oindex
+                and short(W.obj_class[i]) != "JointDistributionModel"]
+    evaluable = [k for k in range(len(W.slots)) if W.observable[k] and k not in W.unevaluable]
+    cached = [k for k in evaluable if W.slot_flag[k] is not None]
+    base = W.base_values
+    ops = []
+    pending = []
+    p_eval = rng.choice([0.3, 0.5, 0.7])
+    eval_all = rng.random() < 0.25
+    while len(ops) < length:
+        r = rng.random()
+        if r < p_eval and evaluable:
+            k = rng.choice(cached if (cached and rng.random() < 0.7) else evaluable)
+            ops.append(dict(op="eval", slot=k))
+            continue
+        r = rng.random()
+        if pending and r < 0.15:
+            i = pending.pop(rng.randrange(len(pending)))
+            ops.append(dict(op="reject", obj=i))
+        elif r < 0.45 and composite:
+            i = rng.choice(composite)
+            ops.append(dict(op="set", obj=i, value=real.gen_value(i, rng, base).tolist()))
+        elif r < 0.55 and samplers:
+            i = rng.choice(samplers)
+            ops.append(dict(op="sample", obj=i, x=W.oindex[id(real.objs[i].x)], seed=rng.randrange(10 ** 6)))
+        elif r < 0.65:
+            i = rng.choice(leaves)
+            ops.append(dict(op="inplace", obj=i, value=real.gen_value(i, rng, base).tolist()))
+        elif r < 0.70:
+            ops.append(dict(op="fire", obj=rng.choice(params)))
+        elif r < 0.80:
+            i = rng.choice(params)
+            if i not in pending:
+                pending.append(i)
+                ops.append(dict(op="propose", obj=i, value=real.gen_value(i, rng, base).tolist()))
+        else:
+            i = rng.choice(leaves)
+            ops.append(dict(op="set", obj=i, value=real.gen_value(i, rng, base).tolist()))
+        if eval_all and ops[-1]["op"] != "eval":
+            for k in evaluable:
+                ops.append(dict(op="eval", slot=k))
+    return ops
+
+
+def run_history(W, ops):
+    """Execute a history on a new copy.  -> list of per-op records:
+       update: dict(kind='upd', flags=[...]) | dict(kind='raise', exc=..)   (history stops)
+       eval  : dict(kind='eval', stale=bool, calls=set(obj), flags=[...], detail=...)"""
+    torch = impl.load()
+    real = Real(W)
+    out = []
+    fresh = None
+    for op in ops:
+        if op["op"] == "eval":
+            k = op["slot"]
+            got = real.observe(k)
+            calls = sorted(set(real.calls))
+            if fresh is None:
+                fresh = Real(W, real.leaf_values())
+            ref = fresh.observe(k)
+            stale = not same_value(got, ref, torch)
+            detail = None
+            if stale:
+                detail = dict(got=_show(got), fresh=_show(ref))
+            out.append(dict(kind="eval", stale=stale, calls=calls, flags=real.flags(), detail=detail,
+                            exc=(got[0] == "exc")))
+        else:
+            r = real.apply(op)
+            fresh = None
+            if r is not None:
+                out.append(dict(kind="raise", exc=r[1], msg=r[2]))
+                break
+            out.append(dict(kind="upd", flags=real.flags()))
+    return out
+
+
+def _show(v):
+    if v[0] == "exc":
+        return f"raises {v[1]}"
+    return [x.flatten()[:4].tolist() for x in v[1]]
+
+
+def parse_trace(W, ops, z):
+    """Decode M_listen.trace output into the same per-op records."""
+    nfl = sum(1 for f in W.slot_flag if f is not None)
+    out, i = [], 0
+    for op in ops:
+        if i >= len(z):
+            break
+        tag = z[i]
+        if tag == 0:
+            stale, k = z[i + 1], z[i + 2]
+            rec = z[i + 3:i + 3 + k]
+            flags = z[i + 3 + k:i + 3 + k + nfl]
+            i += 3 + k + nfl
+            calls = sorted({W.slot_owner[s] for s in rec if W.flag_names[W.slot_flag[s]] == "lp_needs_update"})
+            out.append(dict(kind="eval", stale=bool(stale), calls=calls, flags=flags, recomputed=rec))
+        elif tag == 1:
+            out.append(dict(kind="upd", flags=z[i + 1:i + 1 + nfl]))
+            i += 1 + nfl
+        elif tag == 2:
+            out.append(dict(kind="raise", who=z[i + 1]))
+            break
+        else:
+            out.append(dict(kind="fuel"))
+            break
+    return out
